@@ -761,7 +761,7 @@ where
                 BinOp {
                     apply: cross,
                     prio: 4,
-                    is_commutative: true,
+                    is_commutative: false,
                 },
             ),
             Operator::make_bin(
@@ -870,7 +870,7 @@ where
                 BinOp {
                     apply: |a, b| Val::Bool(a == b),
                     prio: 1,
-                    is_commutative: true,
+                    is_commutative: false,
                 },
             ),
             Operator::make_bin(
@@ -910,7 +910,7 @@ where
                 BinOp {
                     apply: |a, b| Val::Bool(a != b),
                     prio: 1,
-                    is_commutative: true,
+                    is_commutative: false,
                 },
             ),
             Operator::make_bin(
